@@ -9,6 +9,7 @@ count, a comment ends its line, an empty line is a paragraph break);
 correspondence with the model on the same inputs and on the parser stream."""
 import itertools, random, re
 import core, parsecase, universe
+from yalafi import parameters
 
 PROP_FILE = 'props/C05.v'
 
@@ -176,9 +177,15 @@ def run(tier, seed, build, res):
     def glue_oracle(c, d, kind, im):
         # words of a structured document are not glued to what stands next
         # to them (harness/props/c03.py: glued)
-        if d is None or kind != 'doc' or im[0] != 'OK' or c.extr or c.unkn or c.repl:
+        # (with --nosp the skip regions of the generated documents are read
+        # as text and may open maths: no well-formed document any more; a text
+        # with an error mark is C08's subject)
+        if d is None or kind != 'doc' or im[0] != 'OK' or c.extr or c.unkn or c.repl \
+                or c.nosp:
             return None
         allt = '\n'.join(t for _, t, _ in universe.texts_of(im))
+        if parameters.Parameters().mark_latex_error in allt:
+            return None
         return c03.glued(c, d, allt, set(d.accented))
     universe.run(g, res, 'parser', project, glue_oracle)
     after_construct_stream(rng, res, tier)
